@@ -102,11 +102,13 @@ def convertPairs (zones : Bool) : List (Str × Value) → List (Str × PyVal)
 end
 
 mutual
-/-- the `result[child.key] = …` assignments one node contributes (none for Section / Comment). -/
+/-- the `result[child.key] = …` assignments one node contributes (none for Comment).  Since fix ea3edea a
+Section is converted like a Block (`isinstance(child, Block | Section)`), keyed by the section name. -/
 def nodeEntry (zones : Bool) : Node → List (Str × PyVal)
   | .assign _ k v => [(k, convertValue zones v)]
   | .block _ k cs => [(k, .dict (dictOf (nodeEntries zones cs)))]     -- `_convert_block`
-  | _ => []
+  | .sect _ _ k cs => [(k, .dict (dictOf (nodeEntries zones cs)))]
+  | .comment _ _ => []
 def nodeEntries (zones : Bool) : List Node → List (Str × PyVal)
   | [] => []
   | n :: ns => nodeEntry zones n ++ nodeEntries zones ns
